@@ -225,7 +225,7 @@ spif_mbuff_init_from_fp(spif_mbuff_t self, FILE *fp)
             FREE(self->buff);
         }
     } else {
-        file_size = ftell(fp);
+        file_size = ftell(fp) - file_pos;
         fseek(fp, file_pos, SEEK_SET);
         LOWER_BOUND(file_size, 0);
         if (file_size <= 0) {
@@ -282,6 +282,8 @@ spif_mbuff_init_from_fd(spif_mbuff_t self, int fd)
             FREE(self->buff);
         }
     } else {
+        file_size -= (spif_memidx_t) file_pos;
+        LOWER_BOUND(file_size, 0);
         self->len = self->size = file_size;
         self->buff = (spif_byteptr_t) MALLOC(self->size);
 
